@@ -956,6 +956,8 @@ pub const C15_STATEFUL_A: &[&str] = &[
     "x='é€';",
     "/*é*/",
     "* é;",
+    "%* \"it's\";",
+    "%* 'a\"b';",
     // more bytes in the literal buffer than tokens in the stream
     "'a''bcdefghijklmnopqrstuvwxyz';",
     "x=\"aaaaaaaaaaaaaaaaaaaaaaaaaaaaaa\"\"b\";",
